@@ -108,6 +108,7 @@ type Options struct {
 	UseAll      bool // reference every non-blank import at least once (a compilable file has no unused import)
 	NoVendor    bool // never import through a vendor path (dst rewrites those by design)
 	PkgName     string
+	NoTrailing  bool // no comment after the last declaration
 }
 
 var exported = []string{"Foo", "Bar", "New", "Client", "Reader", "Writer", "Print", "Open", "Do", "T", "Err", "Max"}
@@ -397,8 +398,13 @@ func Source(t *tape.Tape, opt Options) Spec {
 		fmt.Fprintf(sb, "// +build linux\n\n")
 	}
 	fmt.Fprintf(sb, "package %s\n\n", sp.PkgName)
+	cgoInGroup := false
 	if sp.Cgo {
-		sb.WriteString("// #include <stdio.h>\nimport \"C\"\n\n")
+		if len(sp.Imports) >= 1 && t.Bool(1, 3) {
+			cgoInGroup = true // "C" as one spec of the import group, its preamble as the spec's doc comment
+		} else {
+			sb.WriteString("// #include <stdio.h>\nimport \"C\"\n\n")
+		}
 	}
 	spec := func(im Import) string {
 		s := fmt.Sprintf("%q", im.Pkg.Path)
@@ -419,6 +425,12 @@ func Source(t *tape.Tape, opt Options) Spec {
 		}
 	}
 	switch {
+	case cgoInGroup:
+		sb.WriteString("import (\n// #include <stdlib.h>\n\"C\"\n")
+		for _, im := range sp.Imports {
+			sb.WriteString(spec(im) + "\n")
+		}
+		sb.WriteString(")\n\n")
 	case len(sp.Imports) == 0:
 	case len(sp.Imports) == 1 && t.Bool(1, 2):
 		fmt.Fprintf(sb, "import %s\n\n", spec(sp.Imports[0]))
@@ -469,7 +481,7 @@ func Source(t *tape.Tape, opt Options) Spec {
 		}
 		sb.WriteString(")\n\n")
 	}
-	if t.Bool(1, 6) {
+	if t.Bool(1, 6) && !opt.NoTrailing {
 		sb.WriteString("// trailing comment\n")
 	}
 	out, err := format.Source([]byte(sb.String()))
